@@ -12,8 +12,21 @@ CLAIMED = {
    technique="contract-based deductive verification: sidecar contracts on the real AST, VC generation by symbolic execution, z3 (cvc5 on unknown)",
    design_ref="6/C18"),
 }
+CLAIMED["C15"] = dict(
+   category="proof",
+   text="timing_source, TimingData.__init__ and displaybpm are symbolically executed from the working tree's AST for every kind of simfile and chart with arbitrary (symbolic) mappings, so the 2 x 3 x 7 x 3^11 configuration space is one family of SMT queries: the chart is the source iff the split-timing rule of the statement holds, every TimingData field comes from that one source, the offset defaults to zero, and the displayed BPM follows the statement case by case. All path obligations are discharged; the functions are loop free apart from an unrolled loop over the eleven chart timing properties read from the tree.",
+   note="Trusted: ordered-map theory, float()/Decimal() of strings as partial uninterpreted parsers with CPython-evaluated constants, min/max/list-comprehension as functions of the list, BeatValues.from_str as a callee contract (its body is verified in C14), A-FLOAT for the 0.7 threshold, the VC generator, z3/cvc5.",
+   technique="contract-based deductive verification: sidecar contracts on the real AST, VC generation by symbolic execution, z3 (cvc5 on unknown)",
+   design_ref="6/C15")
+CLAIMED["C14"] = dict(
+   category="other",
+   text="Deductive proof (all inputs) of Beat construction from every input kind, tick, round_to_tick, from_str, __str__, fifteen operator overrides (exact value, result type Beat), the three-decimal text round trip on the whole tick grid (lemma over the proved contracts) and BeatValues.from_str row by row via a loop invariant; plus one bounded stand-in (BeatValues text round trip through str.join/str.split on enumerated event lists), labelled bounded and not counted as proved - hence level 'other'.",
+   note="Trusted: Fraction arithmetic/rounding exact (T-STD), string number parsers partial and uninterpreted (S9), f'{x:.3f}' within 0.0005 of x, A-FLOAT (floats are reals), the VC generator, z3/cvc5. pow/rpow are outside the statement.",
+   technique="contract-based deductive verification (symbolic execution of the real AST + loop invariant + SMT) with one bounded stand-in",
+   design_ref="6/C14")
 NA_REASON = "not yet brought under contract in this session (work in progress; see DESIGN.md section 6 for the plan)"
 
+NA_TABLE = {}
 checks, na = [], []
 for p in props:
     pid = p["id"]
@@ -30,7 +43,7 @@ for p in props:
             level_note=c["note"],
             technique=c["technique"]))
     else:
-        na.append(dict(property_id=pid, reason=NA.get(pid, NA_REASON) if (NA:=globals().get("NA_TABLE", {})) is not None else NA_REASON))
+        na.append(dict(property_id=pid, reason=NA_TABLE.get(pid, NA_REASON)))
 
 man = dict(
     version=1,
